@@ -63,6 +63,17 @@ func c12Impl(strategy string) fosite.ScopeStrategy {
 func c12StratRun(j c12StratJob) *WRes {
 	res := &WRes{}
 	strs := c12Strings(j.MaxSeg)
+	short := len(strs)
+	if j.MaxSeg > 4 {
+		// strings are ordered by byte length, not by segment count: take the longest prefix of the list
+		// that only contains strings of <= 4 segments
+		for i, s := range strs {
+			if strings.Count(s, ".") >= 4 {
+				short = i
+				break
+			}
+		}
+	}
 	impl := c12Impl(j.Strategy)
 	nviol := 0
 	for mi, m := range strs {
@@ -88,13 +99,13 @@ func c12StratRun(j c12StratJob) *WRes {
 					Engine: "c12strat", Case: map[string]any{"strategy": j.Strategy, "matcher": m, "needle": n}, Expected: fmt.Sprint(want), Observed: got})
 			}
 		}
-		// two-element haystacks: the verdict is the disjunction
-		if mi%7 == 0 {
-			for oi, m2 := range strs {
+		// two-element haystacks: the verdict is the disjunction (fixed sub-grid over strings of <= 4 segments)
+		if mi%7 == 0 && mi < short {
+			for oi, m2 := range strs[:short] {
 				if oi%11 != 0 {
 					continue
 				}
-				for ni, n := range strs {
+				for ni, n := range strs[:short] {
 					if ni%5 != 0 {
 						continue
 					}
@@ -533,9 +544,9 @@ func init() {
 		return res.Viol, nil
 	}
 	registerCheck("C12", "exploration", 120*time.Second, 20*time.Minute, func(r *Run) {
-		maxSeg := 3
+		maxSeg := 5
 		if !r.Quick() {
-			maxSeg = 4
+			maxSeg = 6
 		}
 		var jobs []any
 		shards := 16
